@@ -52,6 +52,9 @@ checks = {
  "C02": ("E3", E3,
    "Every value of bool, int8, uint8, int16, uint16 (131 586 values) plus a boundary lattice for the 32/64-bit integer types, uintptr, float32 and float64 (every bound of the 8 integer types and every power of two up to 2^64, each +-1, +-2, +7/+42, and as floats +-0.49/0.5/0.51/1.5 with both neighbours; NaN, +-Inf, -0, subnormals, MaxFloat32/64) and 70 decimal / malformed strings, x all 16 conversion methods and ToBool, judged by exact big.Int / big.Float arithmetic: a nil error implies the mathematically same (correctly rounded) value, a value that fits must convert, unsupported kinds give ErrConversionUnsupported. Thorough additionally sweeps all 2^32 float32 bit patterns x the 12 integer targets (5.2e10 conversions).",
    "Lattice instead of full enumeration for the 32/64-bit sources (the code is piecewise with constant guards; every bound and power of two is a lattice point); values within 0.5 of a bound may convert or fail.", "DESIGN.md §4, §5 C02"),
+ "C03": ("E3", E3,
+   "Every list over 3 symbols up to length 4 (thorough 5) plus nil, for int, string and struct elements, each allocated with spare capacity filled with a sentinel; every count / size in [-3, len+3]; predicate family {true, false, even, ==1, index<2, nil}; all pairs of lists up to length 3 for the binary helpers (with a second call on the same input to expose shared backing arrays); all 27 partial maps {0,1,2}->{0,1} and all pairs of them; all lists for Min/Max/MinMax; all (lower, higher, hop) in [-3,4]^3 for Range. Each of the ~45 helpers is compared with a reference definition written from its doc comment; inputs must be byte-for-byte unchanged (including the spare capacity), results must not contain the sentinel, nothing may panic.",
+   "Finite alphabets; documented-undefined corners (non-positive counts, empty operands of IsEqual/IsEqualMap/IsDistinct) only checked for no-panic / inputs unchanged / contiguous sub-sequence.", "DESIGN.md §4, §5 C03"),
 }
 
 not_yet = "check not built yet in this round (see DESIGN.md §9 build order); no claim made"
